@@ -134,6 +134,17 @@ CLAIMED = {
             'trusted base: the shim semantics (self-tested), preemption only at synchronisation operations, no spurious wake-ups; '
             'max_enqueuer preset as all callers do; consumers use get/get_batch/iteration.',
             '§2.2, §3 C04'),
+    'C05': ('fault_enumeration',
+            'fault plans (failing producer position, external stop point, stalls under a timeout) x generated thread schedules on the deterministic scheduler; termination/propagation invariants; deadlocks decided structurally',
+            'On top of the C04 configurations a generated fault is injected: producer i raises at position p (several exception '
+            'types), a controller thread issues maybe_stop() / maybe_stop(exc) at a schedule-chosen point (including before '
+            'producers start and while the bounded buffer is full), or a producer/consumer stalls on the virtual clock with a queue '
+            'timeout configured. Invariants: every consumer ends with the producer\'s exception (never StopIteration, never '
+            'blocked), nothing is delivered twice, all other producers return and the failing one re-raises; after a stop every '
+            'thread finishes; the starved side raises TimeoutError at the virtual deadline; no explored schedule ends with a blocked '
+            'thread. Fault positions and schedules are enumerated/sampled, so fault_enumeration is the level.',
+            'same scheduler trusted base as C04; stalls are long virtual sleeps so only the configured timeout can end them.',
+            '§2.2, §3 C05'),
 }
 
 PENDING_REASON = 'check not built yet in this session (work in progress; see DESIGN.md §9 build order) - not claimed until its check exists'
